@@ -541,7 +541,7 @@ Proof.
     destruct (call_prefix fuel esc f args kwargs EV (SE esc) Hw1 Hw2 Hnd _ _ _ _ _ Em Ek Hi base stk escs caps its calls Hc)
       as (pcall & argc & args0 & Hn & Hpop & Hsp & Hend & S12).
     eapply errs_trans; [exact S12|].
-    destruct fv as [[| | | | | | |mc cl| |g]|];
+    destruct fv as [[| | | | | | | |mc cl| |g]|];
       try (apply errs_here; rewrite (step_at _ _ _ _ _ _ _ _ _ Hn); cbn [exec_instr v_stk v_st]; rewrite Hpop, Hsp, El; inversion He; reflexivity).
     2: { apply errs_here. rewrite (step_at _ _ _ _ _ _ _ _ _ Hn). cbn [exec_instr v_stk v_st]. rewrite Hpop, Hsp, El.
          destruct (g =? N_range)%Z; [|inversion He; reflexivity].
